@@ -167,7 +167,7 @@ Decrypt(k) ==
     /\ Step("Decrypt", [k |-> k], DecryptResult(ct, RawKey(k)).class)
 
 (* ---- passphrase-key actions (mode "pass") ---- *)
-RightKey(s) == Kdf(s.pw, <<1, {}>>, s.ps)
+RightKey(s) == Kdf(s.pw, <<s.salt[1], {}>>, s.ps)
 Canonical   == sk.key = RightKey(sk) /\ probe.live      \* the context in which the wide enumerations start
 Unaltered   == blob.flips = {} /\ sk.salt[2] = {} /\ sk.dmod = {}
 
@@ -177,6 +177,20 @@ NewSecretKey(pw, ps) ==
               digest |-> Digest(Kdf(pw, <<1, {}>>, ps)), dmod |-> {}, key |-> Kdf(pw, <<1, {}>>, ps)]
     /\ UNCHANGED <<ct, nn, made, probe, blob, plan>>
     /\ Step("NewSecretKey", [pw |-> pw, N |-> ps[1], r |-> ps[2], p |-> ps[3]], "ok")
+
+(* The passphrase is changed (waddrmgr.ChangePassphrase; on snacl: a new      *)
+(* SecretKey with a new salt takes over what the old one protected): from    *)
+(* now on only the new passphrase derives the key, and what was sealed       *)
+(* before stays readable.  Once per behaviour, from the canonical context.   *)
+Rekey(pw2) ==
+    /\ Mode = "pass" /\ sk.live /\ Canonical /\ Unaltered /\ ~blob.live /\ sk.salt[1] = 1 /\ sk.pw \in BlobFlipPws
+    /\ LET k2 == Kdf(pw2, <<2, {}>>, sk.ps) IN
+       /\ sk' = [live |-> TRUE, pw |-> pw2, salt |-> <<2, {}>>, ps |-> sk.ps,
+                 digest |-> Digest(k2), dmod |-> {}, key |-> k2]
+       /\ probe' = Sealed(k2, 5, nn + 1) /\ nn' = nn + 1
+       /\ made' = made \cup {<<k2, 5, nn + 1>>}
+    /\ UNCHANGED <<ct, blob, plan>>
+    /\ Step("Rekey", [pw |-> pw2], "ok")
 
 SealProbe ==
     /\ sk.live /\ ~probe.live /\ sk.key = RightKey(sk) /\ Unaltered
@@ -257,6 +271,7 @@ AeadNext ==
 PassNext ==
     \/ \E pw \in Passphrases, ps \in ParamSets : NewSecretKey(pw, ps)
     \/ SealProbe \/ Zero \/ OpenProbe \/ Marshal
+    \/ \E pw2 \in Passphrases : Rekey(pw2)
     \/ \E cand \in Passphrases : DeriveKey(cand) \/ Restart(cand)
     \/ \E len \in 0..(BlobLen + 8) : Unmarshal(len)
     \/ \E b \in 0..(8 * (KeySize + DigestSize) - 1) : FlipBlob(b)
